@@ -49,7 +49,7 @@ func funcLeafName(f *ssa.Function) string {
 	if f == nil {
 		return "?"
 	}
-	s := f.String()
+	s := canonFnString(f, f.String())
 	s = strings.ReplaceAll(s, modPath, "")
 	return s
 }
@@ -63,17 +63,17 @@ func objLeafName(o *types.Func) string {
 		pk = strings.TrimPrefix(o.Pkg().Path(), modPath)
 	}
 	if rn := recvNamed(o); rn != "" {
-		return pk + "." + rn + "." + o.Name()
+		return pk + "." + rn + "." + canon(o)
 	}
 	sig := o.Type().(*types.Signature)
 	if sig.Recv() != nil {
 		// interface method
 		if n := namedOf(sig.Recv().Type()); n != nil {
-			return pk + "." + n.Obj().Name() + "." + o.Name()
+			return pk + "." + n.Obj().Name() + "." + canon(o)
 		}
 		return pk + ".<iface>." + o.Name()
 	}
-	return pk + "." + o.Name()
+	return pk + "." + canon(o)
 }
 
 func fieldLeaf(base types.Type, idx int) string {
@@ -512,9 +512,9 @@ func literalsOf(fn *ssa.Function, named *types.Named) []*Literal {
 				}
 				for _, fr := range *fa.Referrers() {
 					if st, ok := fr.(*ssa.Store); ok && st.Addr == ssa.Value(fa) {
-						lit.Fields[f.Name()] = st.Val
-						lit.Stores[f.Name()] = st
-						lit.All[f.Name()] = append(lit.All[f.Name()], st)
+						lit.Fields[canon(f)] = st.Val
+						lit.Stores[canon(f)] = st
+						lit.All[canon(f)] = append(lit.All[canon(f)], st)
 					}
 				}
 			}
